@@ -4,7 +4,6 @@
 package c09
 
 import (
-	"bytes"
 	"encoding/json"
 	"fmt"
 	"os"
@@ -444,7 +443,6 @@ type stats struct {
 func classify(c Case) stats {
 	var s stats
 	// write(a) ... accepted write ... read(a)
-	type w struct{ at int }
 	firstWrite := map[uint64]int{}
 	var acceptedWrites []int
 	for i, st := range c.Steps {
@@ -597,5 +595,3 @@ func TestReplay(t *testing.T) {
 	}
 	check(t, c)
 }
-
-var _ = bytes.Equal
